@@ -13,8 +13,8 @@ PROP = {'gen': [],
  'level_note': 'work in progress',
  'technique': 'Coq proof (invariant over histories) + model/implementation correspondence on command lists + reference-terminal predicate',
  'design_ref': 'DESIGN.md 6.1',
- 'n_quick': 2000,
- 'n_thorough': 40000,
+ 'n_quick': 5000,
+ 'n_thorough': 100000,
  'shard': 125,
  'level': 'proof',
  'trusted_base': [KERNEL, HARNESS],
